@@ -25,7 +25,7 @@
    harness/pv/props/C01.py.  Float rounding is outside the model. *)
 From PV Require Import Model.Isir Proofs.IsirProofs Model.Csmc Proofs.CsmcSupport Proofs.CsmcInvariant Proofs.AuxVar Proofs.CsmcTarget Proofs.PgAssembly.
 From PV Require Import Model.Grammar Model.Proposals Proofs.GrammarTable Proofs.GrammarPG Proofs.GrammarForests Proofs.GrammarProposals Model.CsmcCases Proofs.CsmcEss.
-From PV Require Import Model.EndToEnd Proofs.EndToEndPos Proofs.EndToEndAlign Proofs.EndToEnd Proofs.EndToEndFeq Proofs.EndToEndRel.
+From PV Require Import Model.EndToEnd Proofs.EndToEndPos Proofs.EndToEndAlign Proofs.EndToEnd Proofs.EndToEndFeq Proofs.EndToEndRel Proofs.EndToEndReal.
 
 Theorem C01_csmc_invariant :
   forall (A : Type) (q : list A -> dist A) (om : list A -> Qc) (rs : @swarm A -> bool) (n : nat),
@@ -226,6 +226,42 @@ Theorem C01_phyclone_update_leaves_fscrp_posterior_invariant :
         (pg_update (gorders n) (gcden n) (gsup on) (q_boot po) (gtarget n gam) (gdec n) (genc n on) (ess_rs thr) N (schedule n))).
 Proof. exact phyclone_update_invariant_fscrp. Qed.
 Print Assumptions C01_phyclone_update_leaves_fscrp_posterior_invariant.
+
+(* ... with PhyClone's ACTUAL weights and adapted proposals.  Kernel.create_particle computes the ratio of the intermediate
+   targets exp(log_p(partial tree)) x 1/#orders(partial tree) (divided by the proposal probability) and the sampler's last
+   step corrects to exp(log_p_one); the fully-adapted proposal weighs candidates by exp(log_p), the semi-adapted one does so
+   for the existing clones and the outlier letter.  gt_real / h_real are exactly these: C03's specification (marginal form
+   before the last letter, fixed-root form after it) on C02's root vectors of the PARTIAL rose forest, times C09's 1/fcount.
+   That the final value is gam_fscrp x order density - the premise of the generic theorem - is proved (alignment of the two
+   grammars, well-definedness of the target, C09's density). *)
+Theorem C01_phyclone_update_invariant_with_its_actual_weights :
+  forall (n G nsamp : nat) (on : bool) (alpha c : Qc) (D : nat -> dpoint),
+  (1 <= n)%nat -> (1 <= G)%nat -> 0 < alpha -> 0 < c -> data_ok G nsamp D ->
+  forall (thr : Q) (N : nat),
+  let gam := gam_fscrp alpha c G nsamp D n on in
+  let h := h_real G nsamp alpha D in
+  let gt := gt_real n G nsamp alpha c D in
+  invariant (wlist gam (forests n on))
+    (pg_update (gorders n) (gcden n) (gsup on) (q_full on h) gt (gdec n) (genc n on) (ess_rs thr) N (schedule n))
+  /\ invariant (wlist gam (forests n on))
+    (pg_update (gorders n) (gcden n) (gsup on) (q_semi on h) gt (gdec n) (genc n on) (ess_rs thr) N (schedule n))
+  /\ (forall po : Qc, po < 1 -> (on = true -> 0 < po) -> (on = false -> po = 0) ->
+      invariant (wlist gam (forests n on))
+        (pg_update (gorders n) (gcden n) (gsup on) (q_boot po) gt (gdec n) (genc n on) (ess_rs thr) N (schedule n))).
+Proof. intros n G nsamp on alpha c D Hn HG Ha Hc Hd thr N. exact (phyclone_update_invariant_real n G nsamp on alpha c D Hn HG Ha Hc Hd thr N). Qed.
+Print Assumptions C01_phyclone_update_invariant_with_its_actual_weights.
+
+(* the weight targets end where they should: on a complete path, exp(log_p_one) of the forest built times 1/#orders is the
+   target of the state times the conditional law of the order *)
+Theorem C01_actual_weights_reach_the_target :
+  forall (n G nsamp : nat) (on : bool) (alpha c : Qc) (D : nat -> dpoint),
+  (1 <= n)%nat -> (1 <= G)%nat ->
+  forall (sg : list nat) (path : list place),
+  In sg (gorders n) -> In path (gpaths n on sg) ->
+  gt_real n G nsamp alpha c D sg (rev path)
+  = gam_fscrp alpha c G nsamp D n on (gdec n sg (rev path)) * gcden n sg (gdec n sg (rev path)).
+Proof. exact gt_real_final. Qed.
+Print Assumptions C01_actual_weights_reach_the_target.
 
 (* the state really denotes the forest whose density is taken: the rose forest read off a table of the state space is a
    well-formed clone forest (every data point once, no empty clone) over the points 0..n-1, without outliers when outlier
